@@ -420,7 +420,7 @@ def to_grid(ex, u, Dp):
 def sop_term(ex, S, tD): return "(%s, %s)" % (sg.cm3(ex.S3(S)), sg.cv3(tD))
 
 
-def crystal_case(ck, rng, label, crys, ex):
+def crystal_case(ck, rng, label, crys, ex, heavy=False):
     """returns dict with site term, basis terms and float findings"""
     from onsager import crystal
     dim = crys.dim
@@ -466,6 +466,7 @@ def crystal_case(ck, rng, label, crys, ex):
     # ---- site bases: exact dimension (certificate for Coq) vs implementation ----------------
     res["basis_terms"] = []
     seen = {}
+    first_site, first_fvb = {}, {}
     for c, lst in enumerate(ex.pos):
         for i in range(len(lst)):
             pg = list(crys.pointG[c][i])
@@ -481,6 +482,7 @@ def crystal_case(ck, rng, label, crys, ex):
             for key, msg in judge_bases(vb, tb, [g.cartrot for g in pg], kv, kt, dim):
                 res["problems"].append((key + ("-2d" if dim == 2 else "-3d"), "site (%d,%d): %s" % (c, i, msg)))
             res.setdefault("dims", []).append((c, i, kv, kt))
+            first_site[(c, i)] = (vb[0], np.array(vb[1], copy=True), [np.array(t, copy=True) for t in tb])
     # ---- FullVectorBasis -----------------------------------------------------------------------
     dims = {(c, i): kv for (c, i, kv, kt) in res.get("dims", [])}
     for c in range(crys.Nchem):
@@ -488,6 +490,7 @@ def crystal_case(ck, rng, label, crys, ex):
             VB, VV = crys.FullVectorBasis(c)
         except Exception as e:
             res["problems"].append(("c20-exception", "FullVectorBasis(%d): %s: %s" % (c, type(e).__name__, e))); continue
+        first_fvb[c] = (np.array(VB, copy=True), np.array(VV, copy=True))
         want = sum(dims.get((c, s[0]), 0) for s in crys.sitelist(c))
         VB = np.array(VB).reshape((-1, len(crys.basis[c]), dim)) if len(VB) else np.zeros((0, len(crys.basis[c]), dim))
         if len(VB) != want:
@@ -504,6 +507,85 @@ def crystal_case(ck, rng, label, crys, ex):
             if dev > TOL: res["problems"].append(("c20-fullvectorbasis-not-invariant", "FullVectorBasis(%d) is not invariant under the space group (%.3g)" % (c, dev)))
             VVe = np.einsum('asi,bsj->ijab', VB, VB)
             if np.abs(VVe - VV).max() > TOL: res["problems"].append(("c20-fullvectorbasis-VV", "VV outer product inconsistent"))
+    # ---- history independence and aliasing: the same queries on the SAME object after other API calls, after mutating
+    # every returned array, and on a fresh crystal object must be bit-identical to the first answers
+    def requery(cr):
+        out = {}
+        for (c, i) in first_site:
+            vb = cr.VectorBasis((c, i)); tb = cr.SymmTensorBasis((c, i))
+            out[("site", c, i)] = (vb[0], np.array(vb[1], copy=True), [np.array(t, copy=True) for t in tb])
+        for c in first_fvb:
+            VB, VV = cr.FullVectorBasis(c)
+            out[("fvb", c)] = (np.array(VB, copy=True), np.array(VV, copy=True))
+        return out
+    def same(a, b):
+        if isinstance(a, (list, tuple)):
+            return isinstance(b, (list, tuple)) and len(a) == len(b) and all(same(x, y) for x, y in zip(a, b))
+        if isinstance(a, np.ndarray): return isinstance(b, np.ndarray) and a.shape == b.shape and np.array_equal(a, b)
+        return a == b
+    first = {("site", c, i): v for (c, i), v in first_site.items()}
+    first.update({("fvb", c): v for c, v in first_fvb.items()})
+    def compare(stage, key, cr=None):
+        try:
+            now = requery(cr or crys)
+        except Exception as e:
+            res["problems"].append(("c20-exception", "re-query %s: %s: %s" % (stage, type(e).__name__, e))); return
+        diff = [k for k in first if not same(first[k], now[k])]
+        if diff:
+            k = diff[0]
+            res["problems"].append((key, "%s: answer for %s differs from the first answer on the same crystal (%d of %d queries differ); first %s, now %s" %
+                                    (stage, k, len(diff), len(first), str(first[k][1] if k[0] == "site" else first[k][0].tolist())[:120],
+                                     str(now[k][1] if k[0] == "site" else now[k][0].tolist())[:120])))
+    if first and not any(k == "c20-exception" for k, _ in res["problems"]):
+        try:
+            crys.FullVectorBasis(); crys.FullVectorBasis()
+            for c in range(crys.Nchem): crys.FullVectorBasis(c)
+        except Exception as e:
+            res["problems"].append(("c20-exception", "FullVectorBasis() repeated: %s: %s" % (type(e).__name__, e)))
+        compare("after FullVectorBasis() x2 and FullVectorBasis(c)", "c20-history-dependent")
+        try:
+            from onsager import OnsagerCalc
+            from . import gen
+            for c in range(crys.Nchem):
+                sl = crys.sitelist(c)
+                sh = gen.shells(crys, c, nmax=1)
+                if not sh: continue
+                jn = crys.jumpnetwork(c, sh[0] + 1e-4)
+                crys.jumpnetwork2lattice(c, jn)
+                if sum(len(t) for t in jn) <= 60:
+                    OnsagerCalc.Interstitial(crys, c, sl, jn)
+                    if heavy and len(crys.basis[c]) <= 2 and sum(len(t) for t in jn) <= 16 and crys.dim == 3:
+                        OnsagerCalc.VacancyMediated(crys, c, sl, jn, 1)
+            crys.Wyckoffpos(np.array([0.25, 0.125, 0.375][:dim]))
+        except Exception as e:
+            res["notes"] = "history calls raised %s: %s" % (type(e).__name__, str(e)[:80])
+        compare("after sitelist / jumpnetwork / Interstitial construction", "c20-history-dependent")
+        # mutate everything that was returned
+        try:
+            for (c, i) in first_site:
+                vb = crys.VectorBasis((c, i)); tb = crys.SymmTensorBasis((c, i))
+                vl = crystal.Crystal.vectlist(vb)
+                if isinstance(vb[1], np.ndarray) and vb[1].flags.writeable: vb[1][...] = vb[1] * 7.0 + 1.0
+                for v in (vl or []):
+                    if v.flags.writeable: v[...] = 3.0
+                for t in tb:
+                    if t.flags.writeable: t[...] = t * 5.0 - 2.0
+            for c in first_fvb:
+                VB, VV = crys.FullVectorBasis(c)
+                if isinstance(VB, np.ndarray) and VB.size and VB.flags.writeable: VB[...] = 11.0
+                if isinstance(VV, np.ndarray) and VV.size and VV.flags.writeable: VV[...] = -4.0
+        except Exception as e:
+            res["problems"].append(("c20-exception", "mutating returned arrays: %s: %s" % (type(e).__name__, e)))
+        compare("after overwriting every returned array in place", "c20-returned-array-aliases-state")
+        try:
+            fresh = crystal.Crystal(np.array(crys.lattice, copy=True), [[np.array(u, copy=True) for u in lst] for lst in crys.basis], chemistry=list(crys.chemistry))
+            if fresh.N == crys.N and len(fresh.G) == len(crys.G) and np.array_equal(fresh.lattice, crys.lattice) and \
+                    all(np.array_equal(u, v) for l1, l2 in zip(fresh.basis, crys.basis) for u, v in zip(l1, l2)):
+                compare("fresh crystal object built from the same lattice and basis", "c20-differs-from-fresh-crystal", cr=fresh)
+                res["fresh_compared"] = True
+        except Exception as e:
+            res["notes"] = "fresh crystal: %s: %s" % (type(e).__name__, str(e)[:80])
+        res["history_checked"] = True
     # ---- addbasis with a full orbit keeps the group ------------------------------------------------
     res["addbasis"] = 0
     for u, lst in probes[:2]:
@@ -530,6 +612,9 @@ def special_crystals():
     out.append(("site-S4", crystal.Crystal(np.diag([1., 1., 1.2]), [[a([0., 0, 0])], [a([x, y, z]), a([-x, -y, z]), a([y, -x, -z]), a([-y, x, -z])]])))
     out.append(("site-C3h", crystal.Crystal(a([[1, 0, 0], [-.5, math.sqrt(3) / 2, 0], [0, 0, 1.5]]).T,
                                             [[a([0., 0, 0])], [a([1 / 4, 1 / 12, 0.]), a([-1 / 12, 1 / 6, 0.]), a([-1 / 6, -1 / 4, 0.])]])))
+    from . import gen
+    for nm in ("hcp-oct-tet", "polar2w", "wurtzite-int"):      # multi-site Wyckoff sets with a 1-dimensional invariant vector space
+        out.append((nm, gen.named(nm)[0]))
     out.append(("site-C4-2d", crystal.Crystal(np.eye(2), [[a([0., 0])], [a([1 / 4, 1 / 12]), a([-1 / 12, 1 / 4]), a([-1 / 4, -1 / 12]), a([1 / 12, -1 / 4])]])))
     return out
 
@@ -567,15 +652,15 @@ def run(ck):
     for label, crys in special_crystals():
         ex = sg.Exact(crys)
         if not ex.ok: raise RuntimeError("special crystal %s is not rational" % label)
-        cases.append(crystal_case(ck, rng, label, crys, ex))
+        cases.append(crystal_case(ck, rng, label, crys, ex, heavy=not ck.quick))
         r = rotated(label, crys, "tilt")
-        if r is not None: cases.append(crystal_case(ck, rng, r[0], r[1], r[2])); nrotc += 1
+        if r is not None: cases.append(crystal_case(ck, rng, r[0], r[1], r[2], heavy=not ck.quick)); nrotc += 1
     for label, crys, chem, ex in sg.pool(rng, ck.n(18, 140), random_frac=0.7, nchem_max=3, maxatoms=3):
         if rng.random() < 0.6:
             r = rotated(label, crys, rng.choice(["tilt", "tilt", "generic"]))
             if r is not None:
-                cases.append(crystal_case(ck, rng, r[0], r[1], r[2])); nrotc += 1; continue
-        cases.append(crystal_case(ck, rng, label, crys, ex))
+                cases.append(crystal_case(ck, rng, r[0], r[1], r[2], heavy=not ck.quick)); nrotc += 1; continue
+        cases.append(crystal_case(ck, rng, label, crys, ex, heavy=not ck.quick))
     ck.extra["rotated_crystals"] = nrotc
     ck.extra["skipped_rotated_constructor_failed"] = len(rot_failed)
     try:
@@ -603,3 +688,5 @@ def run(ck):
     ck.extra["certificates_checked_by_coq"] = ncert + len(bcodes)
     ck.extra["traces_validated_against_impl"] = ncert + len([s for s in scodes if s is not None])
     ck.extra["addbasis_cases"] = sum(c["addbasis"] for c in cases)
+    ck.extra["crystals_with_history_and_aliasing_requery"] = sum(1 for c in cases if c.get("history_checked"))
+    ck.extra["crystals_compared_with_fresh_object"] = sum(1 for c in cases if c.get("fresh_compared"))
